@@ -173,13 +173,36 @@ impl Check for Positions {
                 r.fail(format!("{}|completion", sig), what, detail());
                 return r;
             }
-            Ok(items) => items.unwrap_or_default(),
+            Ok(items) => items,
         };
+        let raw = serde_json::to_value(&items).unwrap_or(Value::Null);
+        let items = items.unwrap_or_default();
         let vars = labels_of(&items, CompletionItemKind::VARIABLE);
         let funcs = labels_of(&items, CompletionItemKind::FUNCTION);
         let types = labels_of(&items, CompletionItemKind::STRUCT);
         let keywords = labels_of(&items, CompletionItemKind::KEYWORD);
-        let sig = |what: &str| format!("{}|{}{}", what, case.class.name(), if case.tight { "/tight" } else { "" });
+        // tight positions are a recorded class: only if the proposals are exactly the recorded baseline's
+        let baseline_same = std::cell::OnceCell::new();
+        let as_baseline = || {
+            *baseline_same.get_or_init(|| {
+                let m = "textDocument/completion";
+                // the constrained part of the answer: labels of variables (6), functions (3), types (22)
+                let constrained = |v: &Value| {
+                    let mut l: Vec<String> = v.as_array().map_or(vec![], |a| a.iter().filter(|i| matches!(i["kind"].as_u64(), Some(6) | Some(3) | Some(22))).map(|i| format!("{}:{}", i["kind"], i["label"])).collect());
+                    l.sort();
+                    json!(l)
+                };
+                crate::pinned_lsp::baseline_agrees_on(m, &u, &case.text, crate::pinned_lsp::position_params(m, &u, p.line, p.character), &raw, constrained)
+            })
+        };
+        let sig = |what: &str| {
+            let s0 = format!("{}|{}{}", what, case.class.name(), if case.tight { "/tight" } else { "" });
+            if case.tight {
+                crate::pinned_lsp::triage(s0, as_baseline())
+            } else {
+                s0
+            }
+        };
         let want_vars: Vec<String> = case.proc.map_or(vec![], |j| {
             let mut v: Vec<String> = case.prog.procs[j].params.iter().chain(case.prog.procs[j].locals.iter()).map(|x| x.name.clone()).collect();
             v.sort();
